@@ -23,6 +23,7 @@ def _shapes(tier):
     if tier != "quick":
         base += SH.CORPUS_MORE
     out = list(base)
+    out.append({"type": "mesh", "mesh": "tetra_far"})       # frame origin far outside the mesh (C03 only)
     for inner in ([SH.CORPUS[0], SH.CORPUS[3], SH.CORPUS[5], SH.CORPUS[8]] if tier == "quick" else base):
         out.append({"type": "margin", "margin": 0.25, "inner": inner})
     return out
